@@ -805,9 +805,16 @@ func (c *Cursor) Forward(ctx context.Context) error {
 		if err != nil {
 			return fmt.Errorf("load: %w", err)
 		}
+		// if the descent fails the cursor stays where it was, so that the call can be retried
+		n := len(c.path)
 		pe.linkIndex++
 		c.path = append(c.path, pathEntry{node: node})
-		return c.Min(ctx)
+		if err := c.Min(ctx); err != nil {
+			c.path = c.path[:n]
+			c.path[n-1].linkIndex--
+			return err
+		}
+		return nil
 	} else {
 		if pe.linkIndex+1 < len(node.Key) {
 			pe.linkIndex++
